@@ -343,6 +343,32 @@ time_t time(time_t *t)
 	return r_time(t);
 }
 
+#include <sys/time.h>
+static int (*r_gettimeofday)(struct timeval *, void *);
+static int (*r_clock_gettime)(clockid_t, struct timespec *);
+
+int gettimeofday(struct timeval *tv, void *tz)
+{
+	RESOLVE(gettimeofday);
+	if (armed && fixed_time > 0 && tv) {
+		tv->tv_sec = (time_t)fixed_time;
+		tv->tv_usec = 0;
+		return 0;
+	}
+	return r_gettimeofday(tv, tz);
+}
+
+int clock_gettime(clockid_t clk, struct timespec *ts)
+{
+	RESOLVE(clock_gettime);
+	if (armed && fixed_time > 0 && clk == CLOCK_REALTIME && ts) {
+		ts->tv_sec = (time_t)fixed_time;
+		ts->tv_nsec = 0;
+		return 0;
+	}
+	return r_clock_gettime(clk, ts);
+}
+
 void drfshim_arm(const char *rootdir, int logfd, int ackfd, long killat, int is_torn, long faultat, long faultat2,
                  int ferrno, int fpersist, unsigned pbefore, unsigned pafter, long ftime)
 {
